@@ -59,10 +59,11 @@ def build_source(route, iface, body_idx, final):
     stmts = [STMTS[i][1] for i in body_idx]
     fin = FINALS[final][1]
     if route in ("argparse", "argparse_interleaved"):
-        tup = final == 2
+        tup = final in (2, 3)
         lines = ['"""', "Set CLI arguments", "", ":param argument_parser: argument parser", ":type argument_parser: ```ArgumentParser```", "",
                  ":returns: argument_parser, the result" if tup else ":returns: argument_parser",
-                 ":rtype: ```Tuple[ArgumentParser, int]```" if tup else ":rtype: ```ArgumentParser```", '"""',
+                 (":rtype: ```Tuple[ArgumentParser, int, str]```" if final == 3 else ":rtype: ```Tuple[ArgumentParser, int]```") if tup
+                 else ":rtype: ```ArgumentParser```", '"""',
                  "argument_parser.description = 'Summary'",
                  "argument_parser.add_argument('--a', type=int, help='the a', required=True)"]
         if route == "argparse_interleaved" and stmts:
@@ -71,7 +72,8 @@ def build_source(route, iface, body_idx, final):
             stmts = stmts[1:]
         lines.append("argument_parser.add_argument('--b', help='the b', required=True, default='x')")
         lines += stmts
-        lines.append("return argument_parser" if final != 2 else "return argument_parser, 5")
+        # final 3: more than one value is handed back besides the parser
+        lines.append({2: "return argument_parser, 5", 3: "return argument_parser, 5, 'x'"}.get(final, "return argument_parser"))
         return "def set_cli_args(argument_parser):\n" + indent("\n".join(lines), 4) + "\n"
     body = []
     if doc is not None:
